@@ -133,7 +133,7 @@ static void stage_corpus(Run &R) {
 #ifndef VF_FUZZ
 int main(int argc, char **argv) {
     Run R; R.a = parse_args(argc, argv); R.prop = "C05";
-    install_death(R.a); install_watchdog(&R.evaluations, R.a.stage == "huge" ? 60 : 10);
+    install_death(R.a); WatchdogGuard wdg; install_watchdog(&R.evaluations, R.a.stage == "huge" ? 60 : 10);
     inflight() = [] { return g_bytes ? mkcase(*g_bytes).str() : std::string(); };
     for (int m = 0; m < 4; m++) { OBJ[m] = new Obj(A); if (OBJ[m]->configure(m, 1) != 0) return 2; }
     int rcode;
